@@ -6,6 +6,7 @@ import (
 	"os"
 	"testing"
 
+	"github.com/yorkie-team/yorkie/pkg/document/crdt"
 	"github.com/yorkie-team/yorkie/pkg/document/operations"
 
 	"verif/internal/runner"
@@ -25,8 +26,52 @@ func TestC14Dbg(t *testing.T) {
 	_ = res
 	r := newC14Run(&res.CaseResult, d.Replay)
 	for _, st := range d.Replay.Steps {
+		if os.Getenv("C14_STRUCT") != "" && st.T == "undo" {
+			for _, hop := range r.doc.UndoStackTopForTest() {
+				op := hop.Op
+				switch o := op.(type) {
+				case *operations.Add:
+					fmt.Printf("   top: Add prev=%s value=%s %s\n", tk(o.PrevCreatedAt()), tk(o.Value().CreatedAt()), o.Value().Marshal())
+				case *operations.Remove:
+					fmt.Printf("   top: Remove target=%s\n", tk(o.CreatedAt()))
+				case *operations.ArraySet:
+					fmt.Printf("   top: ArraySet target=%s value=%s %s\n", tk(o.CreatedAt()), tk(o.Value().CreatedAt()), o.Value().Marshal())
+				case *operations.Move:
+					fmt.Printf("   top: Move prev=%s target=%s\n", tk(o.PrevCreatedAt()), tk(o.CreatedAt()))
+				default:
+					fmt.Printf("   top: %T\n", op)
+				}
+			}
+		}
 		r.do(st)
 		fmt.Println("==", st.String(), "->", r.doc.Marshal())
+		if os.Getenv("C14_STRUCT") != "" {
+			if cs := r.doc.CreateChangePack().Changes; len(cs) > 0 {
+				c := cs[len(cs)-1]
+				for _, op := range c.Operations() {
+					switch o := op.(type) {
+					case *operations.Add:
+						fmt.Printf("   [%d] Add prev=%s value=%s %s\n", c.ID().ClientSeq(), tk(o.PrevCreatedAt()), tk(o.Value().CreatedAt()), o.Value().Marshal())
+					case *operations.Remove:
+						fmt.Printf("   [%d] Remove target=%s\n", c.ID().ClientSeq(), tk(o.CreatedAt()))
+					case *operations.ArraySet:
+						fmt.Printf("   [%d] ArraySet target=%s value=%s %s\n", c.ID().ClientSeq(), tk(o.CreatedAt()), tk(o.Value().CreatedAt()), o.Value().Marshal())
+					case *operations.Move:
+						fmt.Printf("   [%d] Move prev=%s target=%s\n", c.ID().ClientSeq(), tk(o.PrevCreatedAt()), tk(o.CreatedAt()))
+					}
+				}
+			}
+			if a, ok := r.doc.RootObject().Get("arr").(*crdt.Array); ok {
+				for _, n := range a.AllRGANodes() {
+					if n.Element() == nil {
+						fmt.Printf("     slot %s dead r=%s\n", n.IDString(), tk(n.RemovedAt()))
+					} else {
+						fmt.Printf("     slot pos=%s elem c=%s r=%s m=%s %s\n", tk(n.PositionCreatedAt()), tk(n.Element().CreatedAt()), tk(n.Element().RemovedAt()), tk(n.Element().MovedAt()), n.Element().Marshal())
+					}
+				}
+			}
+			fmt.Printf("     garbageLen doc=%d undo=%d\n", r.doc.GarbageLen(), r.doc.UndoStackLenForTest())
+		}
 	}
 	pack := r.doc.CreateChangePack()
 	for _, c := range pack.Changes {
